@@ -246,6 +246,23 @@ def g_dfs(ck: Check, rule: str) -> None:
                 probs.append(f"line {d.lineno}: successor list rewritten as `{text(d.value)[:50]}` (elements may be lost)")
         ck.ob(rule, fm, loop, not probs, "; ".join(probs) if probs else "frame list = all successors of the current node",
               key="successor list")
+        # a frame that is visited for the first time (no successor list yet) gets its successors computed -- which is what
+        # expands the node -- before the loop turns to the next frame; leaving it alone leaves a stub behind
+        if srcs:
+            from .c13 import _within as _w13
+            src_n = fm.cfgn(srcs[0])
+            first_visit = [b_ for b_ in fm.cfg.nodes if b_.kind == "branch" and b_.test is not None and b_.id in ids
+                           and isinstance(b_.test, ast.Compare) and len(b_.test.ops) == 1 and text(b_.test.left) == L
+                           and is_none(b_.test.comparators[0])
+                           and ((isinstance(b_.test.ops[0], ast.Is) and b_.pol) or (isinstance(b_.test.ops[0], ast.IsNot) and not b_.pol))]
+            hdr_ = fm.cfg.loop_header[loop]
+            for b_ in first_visit:
+                skipped = hdr_.id in _w13(fm, loop, b_, {src_n.id})
+                ck.ob(rule, fm, b_.stmt if getattr(b_, "stmt", None) is not None else loop, not skipped,
+                      "a frame without successor list always gets one (the node is expanded)" if not skipped else
+                      f"a frame whose successors were never computed can be dropped (`continue` before "
+                      f"node_successors({cur}, compute=True)): the node stays an unexpanded stub although the search reports "
+                      f"completion", key="first visit computes the successors")
         seen = _seen_name(fm, loop)
         _seen_init(ck, rule, fm, loop, seen)
         # every pop of L
